@@ -352,7 +352,13 @@ def inherited_member_sites(ctx):
                 src = unparse(ds[0]) if ds else txt
             parent = src.split(".get_children")[0].split(".children")[0]
             pre = [c for c in calls_in(f.node) if isinstance(c.func, ast.Attribute) and c.func.attr == "resolve_inherit" and unparse(c.func.value) == parent and c.lineno < lp.lineno]
-            out.append((f, lp, bool(pre), "parent's inheritance resolved before its members are copied", f"`{parent}.resolve_inherit(...)` is not called before the copy: whether grandparent members arrive depends on the order in which types are resolved"))
+            # ... on every path: the call dominates the copy (not `if parent is in this file: resolve`)
+            cfg = ctx.cfg(f)
+            dom = cfg.dominators(follow_exc=False)
+            ln = next((n_ for n_ in cfg.nodes if n_.kind in ("for", "loophead") and n_.ast is lp), None) if isinstance(lp, ast.For) else cfg.node_of(ctx.m.enclosing_stmt(lp))
+            always = [c for c in pre if cfg.node_of(c) is not None and ln is not None and cfg.node_of(c).id in dom.get(ln.id, set())]
+            msg = f"`{parent}.resolve_inherit(...)` is not called before the copy" if not pre else f"`{parent}.resolve_inherit(...)` is called on some paths only (under a condition)"
+            out.append((f, lp, bool(always), "parent's inheritance resolved before its members are copied", msg + ": whether grandparent members arrive depends on the order in which types (files) are resolved"))
     if not out:
         raise AnalysisError("no code filling Type.in_children found")
     return out
